@@ -8,6 +8,7 @@ import (
 )
 
 func main() {
+	e1.Sequential = sequentialWrappers
 	e1.Main("C08", scenarios, e1.Budget{Quick: 90 * time.Second, Thorough: 15 * time.Minute},
 		[]string{"each history is judged by porcupine v1.3.0, cross-validated by a brute-force permutation search"})
 }
